@@ -137,3 +137,26 @@ func pkgOf(fn *ssa.Function) *types.Package {
 	}
 	return nil
 }
+
+// stripTypeArgs removes instantiation brackets: (*CodecConn[[]byte, []byte]).X -> (*CodecConn).X
+func stripTypeArgs(k string) string {
+	var sb strings.Builder
+	depth := 0
+	for i := 0; i < len(k); i++ {
+		c := k[i]
+		if c == '[' {
+			// a slice type "[]" directly inside brackets is part of the argument list; at depth 0
+			// a '[' always starts a type-argument list in function keys
+			depth++
+			continue
+		}
+		if c == ']' {
+			depth--
+			continue
+		}
+		if depth == 0 {
+			sb.WriteByte(c)
+		}
+	}
+	return sb.String()
+}
